@@ -118,7 +118,7 @@ def check_trial(prog: Program, sc, rec) -> list[dict]:
         lw = _last_writer(rec, comp)
         wfunc = fw.func if fw else "?"
         where = fw.where if fw else ""
-        viol(rule, f"{wfunc}:{label}", where,
+        viol(rule, f"{wfunc}:{label}@{scen}", where,
              f"after a {rec.outcome} trial of {rec.move_cls} under {rec.driver} the {label} are not what they were: written by `{fw.detail if fw else '?'}` in {wfunc}"
              + (f", last touched by `{lw.detail}` in {lw.func} ({lw.where})" if lw and lw is not fw else "")
              + f"; version after = {str(a)[:120]}, before = {str(b)[:60]}",
